@@ -10,8 +10,8 @@ CONSTANTS
   Sts = {200}
   Hdrs = {}
   Szs = {1, 2}
-  NVal = 4
-  MaxNow = 4
+  NVal = 3
+  MaxNow = 3
   KF_UnlockedSizeCheck = FALSE
   TruncNow = FALSE
   NoExpiryTest = FALSE
@@ -19,6 +19,6 @@ CONSTANTS
   KeepHist = TRUE
   OneGate = FALSE
 SPECIFICATION ISpec
-VIEW View
-INVARIANTS CxPOk CxHeldBound Accounting Exact
+VIEW ViewL
+INVARIANTS WitReplay WitLaggingNoop WitSizeReject WitStaleSleeper
 CHECK_DEADLOCK FALSE
